@@ -157,6 +157,8 @@ def run(ctx, tier):
     ctx.rule("H6", "(shared with C04.W5) the IPv6 parsers of the two URL types are statement-for-statement identical: a host text cannot be accepted by one and rejected by the other")
     ctx.rule("H7", "the numeric limits tested by the IPv4/IPv6 parsers, the IPv4 fast path and verify_dns_length (as cuts of the "
                    "integer line, independent of how the test is written) are the Standard's / RFC 1035's")
+    ctx.rule("H8", "the opaque-host parsers refuse forbidden host code points and the domain path refuses forbidden domain code "
+                   "points, in both URL types (anchored to the Standard, not to the twin)")
     ctx.rule("H4", "IPv6 serializer: the recorded longest zero run is replaced only by a strictly longer one (first longest wins)")
     cfgs = C.configs_for(tier, thorough=["release", "ssse3", "avx512", "devchecks", "amalgamated", "nopattern"])
     fxs = C.load_configs(ctx, cfgs)
@@ -165,6 +167,8 @@ def run(ctx, tier):
         check(ctx, fxs[name])
         from rules import c10_limits
         c10_limits.check(ctx, fxs[name], "H7")
+        from rules import helpers_spec as HS
+        HS.check_required_refusals(ctx, fxs[name], "H8")
 
 
 def _subst_pk(e, pname):
